@@ -148,7 +148,21 @@ func (g *gen) expr(t ty, depth int) string {
 			op := g.pick([]string{"<", ">", "<=", ">=", "==", "!="})
 			return fmt.Sprintf("(%s %s %s)", g.expr(nt, depth-1), op, g.expr(nt, depth-1))
 		case 1:
-			return fmt.Sprintf("(%s %s %s)", g.expr(tBool, depth-1), g.pick([]string{"&&", "||"}), g.expr(tBool, depth-1))
+			op := g.pick([]string{"&&", "||"})
+			if g.chance(40) {
+				// a chain of one operator, with or without the (redundant) parentheses of its left group
+				n := g.intn(3, 4, "chain")
+				e := g.atom(tBool, depth-1)
+				for i := 1; i < n; i++ {
+					if i == 1 || g.chance(50) {
+						e = fmt.Sprintf("%s %s %s", e, op, g.atom(tBool, depth-1))
+					} else {
+						e = fmt.Sprintf("(%s) %s %s", e, op, g.atom(tBool, depth-1))
+					}
+				}
+				return "(" + e + ")"
+			}
+			return fmt.Sprintf("(%s %s %s)", g.expr(tBool, depth-1), op, g.expr(tBool, depth-1))
 		case 2:
 			return "!" + g.atom(tBool, depth-1)
 		case 3:
